@@ -226,6 +226,7 @@ func (c *Catalog) AddHTTPMethod(d directive.Directive) *jerr.JApiError {
 	}
 
 	c.Interactions.Set(httpID, in)
+	c.rememberInteraction(httpID)
 
 	return nil
 }
@@ -239,11 +240,17 @@ func (c *Catalog) hasInteraction(id InteractionID) bool {
 	if c.Interactions.Has(id) {
 		return true
 	}
-	key := jsonKeyText(id.String())
-	_, found := c.Interactions.Find(func(k InteractionID, _ Interaction) bool {
-		return jsonKeyText(k.String()) == key
-	})
+	_, found := c.interactionKeys[jsonKeyText(id.String())]
 	return found
+}
+
+// rememberInteraction registers the text of the id of an interaction which has
+// been added.
+func (c *Catalog) rememberInteraction(id InteractionID) {
+	if c.interactionKeys == nil {
+		c.interactionKeys = make(map[string]struct{}, 64)
+	}
+	c.interactionKeys[jsonKeyText(id.String())] = struct{}{}
 }
 
 // jsonKeyText returns the text which encoding/json writes for s: every byte
@@ -582,6 +589,7 @@ func (c *Catalog) AddJsonRpcMethod(d directive.Directive) *jerr.JApiError {
 	}
 
 	c.Interactions.Set(rpcId, in)
+	c.rememberInteraction(rpcId)
 
 	return nil
 }
